@@ -3,6 +3,7 @@ CONSTANTS N = 86400 MaxSteps = 6 InvertStartBySecTruncation = FALSE
 CONSTANT Lons <- LonsAll
 CONSTANT Theta0s <- ThetasAll
 CONSTANT StartSecs <- Secs60
+CONSTANT Plans <- NoPlan
 CONSTANT Dts <- DtsThorough
 INVARIANT SiteEpochAgrees
 INVARIANT StartInversionExact
